@@ -71,14 +71,22 @@ def run(ctx):
     samples = []
     identical = 0
     canon_rows = {}
+    oracle_only = []
     for p in impl["pairs"]:
         name = p["name"]
-        r = res[os.path.join(ctx.gen, name + ".v")]
-        tags = V.tagged(r["out"])
-        same = by_prog(tags, "SAME").get("P")
         tol = TOL.get(name, TOL_DEFAULT)
         f64_fail = [f for f in p["f64"]["failures"]
                     if not abs(f["a"] - f["b"]) <= max(F64_RTOL, 10 * tol) * max(abs(f["a"]), abs(f["b"]))]
+        if p.get("oracle_only"):
+            # programs too large to regenerate on every change: plain f64 comparison at the sampled states only
+            oracle_only.append(name)
+            if f64_fail:
+                V.violation(ctx, "%s: the two implementations differ in plain f64 at %s" % (name, f64_fail[0]["state"]),
+                            {"broken": "oracle", "pair": name, "failing": f64_fail}, found_input=True)
+            continue
+        r = res[os.path.join(ctx.gen, name + ".v")]
+        tags = V.tagged(r["out"])
+        same = by_prog(tags, "SAME").get("P")
         if p["unsupported"][0] or p["unsupported"][1]:
             V.violation(ctx, "%s uses operations the lowering does not support" % name,
                         {"broken": "translator", "unsupported": p["unsupported"]}, found_input=False)
@@ -164,8 +172,9 @@ def run(ctx):
         "checker_cmd": "make -C coq (coqc 8.16.1) ; coqc coq/gen/C08/<pair>.v",
         "trusted_base": V.COMMON_TRUSTED + ["Interval bigint backend at precision %d" % impl["prec"],
                                              "the list of pairs and how each member is constructed (harness/src/bin/c08.rs)"],
-        "programs": 2 * len(impl["pairs"]), "pairs": len(impl["pairs"]), "pairs_proved_identical": identical,
-        "pairs_compared_by_enclosures_(labelled_test)": len(impl["pairs"]) - identical,
+        "programs": 2 * (len(impl["pairs"]) - len(oracle_only)), "pairs": len(impl["pairs"]), "pairs_proved_identical": identical,
+        "pairs_compared_by_enclosures_(labelled_test)": len(impl["pairs"]) - identical - len(oracle_only),
+        "pairs_compared_in_plain_f64_only_(programs_too_large)": oracle_only,
         "contributions_proved_equal_for_all_states_by_canonicaliser": canon_rows,
         "disagreements_checked": n_cmp,
         "worst_relative_difference_per_pair": worst,
